@@ -36,7 +36,7 @@ pub fn rv32(op: &str, x: i32, y: i32) -> i32 {
         "divu" => if yu == 0 { -1 } else { (xu / yu) as i32 },
         "rem" => if y == 0 { x } else if x == i32::MIN && y == -1 { 0 } else { x % y },
         "remu" => if yu == 0 { x } else { (xu % yu) as i32 },
-        _ => unreachable!(),
+        other => panic!("unknown ALU operation {other}"),
     }
 }
 
